@@ -383,10 +383,20 @@ def m_append(eng, st, recv, args, kwargs, node):
         raise Unsupported(".append on %r" % (o,))
     v = args[0]
     n, g = o.len, o.get
+    memfn = None
+    try:
+        vt = eng.key_term(v)
+        if o.memfn is None and not o.note == "empty":
+            eng.contains(recv, v, st, node)       # gives the base list its membership predicate (sets o.memfn)
+        old = o.memfn
+        if old is not None:
+            memfn = (lambda t, old=old, vt=vt: z3.Or(old(t), t == vt) if t.sort() == vt.sort() else old(t))
+    except Unsupported:
+        memfn = None
     if o.note == "empty":
-        st.heap[recv.addr] = HSeq(1, lambda k: v, etype=o.etype)
+        st.heap[recv.addr] = HSeq(1, lambda k: v, etype=o.etype, memfn=memfn)
     else:
-        st.heap[recv.addr] = HSeq(n + 1, lambda k: ite(k == n, v, g(k)), etype=o.etype)
+        st.heap[recv.addr] = HSeq(n + 1, lambda k: ite(k == n, v, g(k)), etype=o.etype, memfn=memfn)
     return VNone()
 
 
